@@ -9,6 +9,28 @@ oracle is needed: the classification tables in ``mcphot/ref/c03_tables.py`` say 
 every output column / property whether it is position-like (must move by exactly
 (dx, dy); x/y members swap on transposition) or position-free (must not change).
 
+Two rules keep the relation from being vacuous for cutout-registration slips:
+
+* SOURCE ALPHABET.  Every scene holds, besides its 3-5 extended Gaussians, one
+  instance of each "odd" segment of ``c03_core.ODD_PATTERNS`` (5-pixel diagonal, single
+  pixel, one-row / one-column segment, negative block, completely masked block, block
+  whose peak is on its bounding-box edge), with its own label in the segmentation map.
+  They drive the rare per-source branches (failed / impossible quadratic fit and its
+  fall-back, minimum and circular-minimum Kron radius, undefined Kron radius, "no
+  unmasked pixel", isophotal fall-back of the windowed centroid, ...) under every
+  offset.  Apertures (aperture_photometry, ApertureStats incl. apertures smaller than a
+  segment), profile centres, IRAFStarFinder ``xycoords`` and a scalar SourceCatalog are
+  placed on them as well.
+* AUXILIARY ARRAYS.  Every optional per-pixel input of every API (error, mask,
+  background, convolved data, detection catalogue, threshold map) is non-constant on the
+  scale of the frame (the error map carries a smooth sensitivity gradient), is
+  transformed with the scene (padding: a positive constant for error / threshold) and is
+  passed in at least one configuration -- including ``error`` with the error-aware
+  centroid functions (centroid_1dg / centroid_2dg) in find_peaks and centroid_sources.
+  A cutout of such an array taken at the wrong place then changes the result.
+centroid_sources is checked under transposition (a centroid function) AND translation:
+it is the centroid step of find_peaks, which passes it its peaks, data, mask and error.
+
 TOLERANCES (mcphot/ref/c03_core.TOL), calibrated on the unchanged tree
 (C03_CALIB=1, worst ratio deviation/allowed over seeds 0-2 is quoted):
   exact  integers (indices, boxes, slices, label maps, areas): bit-equal.
@@ -25,7 +47,14 @@ TOLERANCES (mcphot/ref/c03_core.TOL), calibrated on the unchanged tree
          internal 1e-10 geometric tolerance (DESIGN C01).
   fit    iterative results (windowed centroid: stops when the step is < 1e-4 and then is
          accurate to the next step ~1e-8; brentq radius xtol 2e-12; 1-D Gaussian fits), 1e-6.
-  fitl   2-D Gaussian least-squares centroids under transposition (ftol-limited), 1e-5.
+  fitl   2-D Gaussian least-squares centroids under transposition (ftol-limited), 1e-5; under
+         translation the same columns are held to 'fit' (bit-identical cutouts -> identical fits;
+         observed deviation 0 or 1 ulp).
+Calibration of the columns added with the odd segments / error-aware fits (seeds 0-2, quick):
+worst deviation/allowed 3.5e-4 (ApertureStats.moments_central, transposition), fits <= 2e-5.
+AMBIGUITY (rule 1): the orientation of a row with isotropic second moments (single pixel;
+semimajor == semiminor within 1e-9) and the theta of an elliptical aperture with a == b are
+undefined; any finite value is accepted there (counted as orientation_values_ambiguous).
 """
 import math
 import os
@@ -44,17 +73,29 @@ RULE = ('full Cartesian product scene x offset (dx,dy) x pad widths (px,py) x AP
         'configuration x transposition. quick: 4 scenes, (dx,dy) in {0,1,2,5}x{0,1,3,7}, pads {(4,6),(0,0)}; '
         'thorough: 8 scenes, (dx,dy) in {0,1,2,5,13}x{0,1,3,7,16}, pads {0,4}x{0,6}, and the full products of '
         'SourceCatalog (apermask_method x localbkg_width x kron_params x input set) and ApertureStats (aperture class '
-        'x sum_method x sigma clipping) configurations. Every case runs the real API on the base inputs and on the '
-        'transformed inputs and compares every classified column. A case is non-trivial when the transformation is '
-        'not the identity embedding (dx,dy,px,py)=(0,0,0,0) AND at least one row/value passed the footprint rule '
-        'and was compared.')
+        'x sum_method x sigma clipping) configurations. Every scene = 3-5 extended Gaussians + one instance of each '
+        'of the 6 odd segments (diagonal, single pixel, one row/column, negative block, fully masked block, '
+        'edge-peaked block), all labelled in the segmentation map and all measured (apertures, profile centres, '
+        'given finder coordinates, a scalar catalogue sit on them too). Every optional per-pixel auxiliary input '
+        '(error with a large-scale gradient, mask, background, convolved data, detection catalogue, threshold map) is '
+        'transformed with the scene and passed in at least one configuration of each API that accepts it, error also '
+        'to the error-aware centroid functions of find_peaks / centroid_sources. Every case runs the real API on '
+        'the base inputs and on the transformed inputs and compares every classified column. A case is non-trivial '
+        'when the transformation is not the identity embedding (dx,dy,px,py)=(0,0,0,0) AND at least one row/value '
+        'passed the footprint rule and was compared.')
 ASSUMPTIONS = [
     'numpy is trusted; scenes (image, error, mask, ramp, smoothed image, segmentation map) are built without photutils',
     'footprints of Kron / windowed-centroid measurements use the semimajor_sigma, kron_radius and half-light radius '
     'reported by the BASE run (documented radii 6*a, kron_params[0]*r_k*a, 4*sigma_win) plus one pixel of margin; all '
     'other footprints come from the inputs alone (segment boxes, aperture radii, kernel/box sizes)',
     'the deblend_sources input label map is produced by detect_sources on the base image (it is an input, any label map is valid)',
-    'frames are at most 58x73 px, 3-5 sources: defects that need other geometry are outside the bound',
+    'frames are at most 58x73 px, 3-5 extended sources + 6 odd segments: defects that need other geometry are outside '
+    'the bound',
+    'the relation compares two runs: a value that is NaN ("no result") in both runs agrees, so a defect that makes a '
+    'measurement fail identically in the base and in the transformed frame is invisible here (such values are counted '
+    'in values_nan_in_both_runs)',
+    'centroid_sources under translation is read off the find_peaks clause of the property (find_peaks delegates its '
+    'centroids to it); find_peaks and the star finders are not transposed (the property does not list them)',
 ]
 
 OFFX = (0, 1, 2, 5)
@@ -320,7 +361,8 @@ def run_dao(S, T, ci):
         f = DAOStarFinder(6.0, 3.5, ratio=0.6, theta=30.0, exclude_border=True, sharplo=0.1, roundlo=-2.0, roundhi=2.0)
         mask = T.img(S['mask'])
     elif name == 'xycoords':
-        xi, yi = T.ipos([int(p[1] + 0.5) for p in S['src']], [int(p[2] + 0.5) for p in S['src']])
+        xi, yi = T.ipos([int(p[1] + 0.5) for p in S['src']] + [int(o['xc']) for o in S['odd']],
+                        [int(p[2] + 0.5) for p in S['src']] + [int(o['yc']) for o in S['odd']])
         f = DAOStarFinder(4.0, 3.0, xycoords=np.transpose([xi, yi]), sharplo=0.0, roundlo=-3.0, roundhi=3.0)
     elif name == 'thr3-open-filters-mask':
         # low threshold, sharpness / roundness cuts wide open: the odd segments (hot pixel, thin lines, blocks)
@@ -335,7 +377,7 @@ def run_dao(S, T, ci):
     return finish_detected(res, S, T, 'xcentroid', 'ycentroid', 2 * hs + f.min_separation + 2)
 
 
-IRAF_CFG = ['default', 'exclude_border-mask', 'thr4-open-filters']
+IRAF_CFG = ['default', 'exclude_border-mask', 'thr4-open-filters', 'xycoords']
 
 
 def run_iraf(S, T, ci):
@@ -343,6 +385,12 @@ def run_iraf(S, T, ci):
     mask = None
     if IRAF_CFG[ci] == 'default':
         f = IRAFStarFinder(8.0, 3.0, roundhi=1.0, sharplo=0.2, sharphi=3.0)
+    elif IRAF_CFG[ci] == 'xycoords':
+        # given integer positions (Gaussian sources and the odd segments), translated with the scene
+        xi, yi = T.ipos([int(p[1] + 0.5) for p in S['src']] + [int(o['xc']) for o in S['odd']],
+                        [int(p[2] + 0.5) for p in S['src']] + [int(o['yc']) for o in S['odd']])
+        f = IRAFStarFinder(3.0, 2.8, xycoords=np.transpose([xi, yi]), sharplo=-10.0, sharphi=10.0, roundlo=-10.0,
+                           roundhi=10.0)
     elif IRAF_CFG[ci] == 'thr4-open-filters':
         f = IRAFStarFinder(4.0, 2.8, minsep_fwhm=1.0, sharplo=-10.0, sharphi=10.0, roundlo=-10.0, roundhi=10.0)
     else:
@@ -494,6 +542,9 @@ CAT_CFG = {
     'plain/none/localbkg3/kron(2.0,2.0)': dict(lw=3, am='none', kp=(2.0, 2.0)),
     'detection_cat/correct/localbkg2': dict(detcat=True, error=True, mask=True, bkg=True, lw=2, am='correct',
                                             kp=(2.5, 1.4, 0.0)),
+    # a SCALAR catalog (get_label) of the diagonal odd segment: the ``isscalar`` branches of the per-source code
+    'scalar(diag5)/conv-err-mask-bkg/correct/localbkg3': dict(conv=True, error=True, mask=True, bkg=True, lw=3,
+                                                              am='correct', kp=(2.5, 1.4, 0.0), scalar='diag5'),
 }
 NCAT_QUICK = len(CAT_CFG)
 # thorough: the full product apermask_method x localbkg_width x kron_params x input set
@@ -530,20 +581,37 @@ def run_catalog(S, T, ci):
         if v.get('conv'):
             kw['convolved_data'] = T.img(S['conv'])
         cat = SourceCatalog(T.img(S['data_bad'] if v.get('bad') else S['data']), seg, **kw)
+    scalar = False
+    if v.get('scalar'):
+        cat = cat.get_label([o['label'] for o in S['odd'] if o['kind'] == v['scalar']][0])
+        scalar = True
     res = Res('SourceCatalog', n=cat.nlabels)
+
+    def rows(name, val):
+        """A scalar catalog reports one source without the leading axis: put it back."""
+        if not scalar or name in ('isscalar', 'nlabels', 'properties', 'extra_properties', 'labels'):
+            return val
+        kind = TABLES['SourceCatalog'].get(name, ('?',))[0]
+        if kind in ('img', 'bbox', 'null', 'aper', 'cutoutimg', 'slices'):
+            return [val]
+        unit = getattr(val, 'unit', None)
+        val = np.asarray(getattr(val, 'value', val))[None]
+        return val if unit is None else val * unit
+
     for prop in list(cat.properties) + ['isscalar', 'nlabels', 'properties', 'extra_properties']:
-        res.add(prop, getattr(cat, prop))
+        res.add(prop, rows(prop, getattr(cat, prop)))
     flux, fluxerr = cat.circular_photometry(CIRC_R)
-    res.add('circular_photometry.flux', flux)
-    res.add('circular_photometry.fluxerr', fluxerr)
+    res.add('circular_photometry.flux', rows('circular_photometry.flux', flux))
+    res.add('circular_photometry.fluxerr', rows('circular_photometry.fluxerr', fluxerr))
     flux, fluxerr = cat.kron_photometry(KRON2)
-    res.add('kron_photometry.flux', flux)
-    res.add('kron_photometry.fluxerr', fluxerr)
-    res.add('fluxfrac_radius(0.5)', cat.fluxfrac_radius(0.5))
-    res.add('fluxfrac_radius(0.8)', cat.fluxfrac_radius(0.8))
-    res.add('make_circular_apertures', cat.make_circular_apertures(3.3))
-    res.add('make_kron_apertures', cat.make_kron_apertures((3.0, 1.0)))
-    res.add('make_cutouts', cat.make_cutouts(T.pair_yx(CUT_SHAPE), mode='partial', fill_value=np.nan))
+    res.add('kron_photometry.flux', rows('kron_photometry.flux', flux))
+    res.add('kron_photometry.fluxerr', rows('kron_photometry.fluxerr', fluxerr))
+    res.add('fluxfrac_radius(0.5)', rows('fluxfrac_radius(0.5)', cat.fluxfrac_radius(0.5)))
+    res.add('fluxfrac_radius(0.8)', rows('fluxfrac_radius(0.8)', cat.fluxfrac_radius(0.8)))
+    res.add('make_circular_apertures', rows('make_circular_apertures', cat.make_circular_apertures(3.3)))
+    res.add('make_kron_apertures', rows('make_kron_apertures', cat.make_kron_apertures((3.0, 1.0))))
+    res.add('make_cutouts', rows('make_cutouts', cat.make_cutouts(T.pair_yx(CUT_SHAPE), mode='partial',
+                                                                  fill_value=np.nan)))
 
     # ---- footprints (base frame coordinates) --------------------------------
     n = res.n
@@ -596,8 +664,12 @@ PROF_CFG = ['RadialProfile-exact-err-mask', 'RadialProfile-subpixel3', 'CurveOfG
 def run_profiles(S, T, ci):
     from photutils.profiles import CurveOfGrowth, RadialProfile
     name = PROF_CFG[ci]
-    bx = np.array([p[1] + 0.23 for p in S['src']])
-    by = np.array([p[2] - 0.41 for p in S['src']])
+    # centres: the Gaussian sources plus the hot pixel and the negative block (a clear central extremum, so the
+    # Gaussian fit of RadialProfile stays well-posed); the curve of growth, which fits nothing, is also centred on
+    # the completely masked block (empty innermost apertures)
+    oddk = ('pixel1', 'neg9', 'masked9') if name.startswith('CurveOfGrowth') else ('pixel1', 'neg9')
+    bx = np.array([p[1] + 0.23 for p in S['src']] + [o['xc'] + 0.23 for o in S['odd'] if o['kind'] in oddk])
+    by = np.array([p[2] - 0.41 for p in S['src']] + [o['yc'] - 0.41 for o in S['odd'] if o['kind'] in oddk])
     x, y = T.pos(bx, by)
     api = name.split('-')[0]
     res = Res(api, n=len(bx))
@@ -635,7 +707,12 @@ def run_profiles(S, T, ci):
             p.normalize(method='max')
             push('normalized.profile', np.asarray(p.profile, float))
             push('calc_ee_at_radius', np.asarray(p.calc_ee_at_radius(np.array([2.2, 4.4])), float))
-            push('calc_radius_at_ee', np.asarray(p.calc_radius_at_ee(np.array([0.3, 0.6])), float))
+            try:
+                push('calc_radius_at_ee', np.asarray(p.calc_radius_at_ee(np.array([0.3, 0.6])), float))
+            except ValueError:
+                # documented: raised when the curve of growth is not monotonic (the negative block); recorded
+                # as NaN so that both runs must agree on it
+                push('calc_radius_at_ee', np.full(2, np.nan))
     rmax = {'RadialProfile-exact-err-mask': 9.0, 'RadialProfile-subpixel3': 7.25}.get(name, 9.0)
     for k, vals in out.items():
         if k == 'apertures':
@@ -849,7 +926,14 @@ def replay(case, seed):
 
 def describe(tier, seed):
     return {'alphabet': {
-        'scenes': [{'shape': list(s['shape']), 'sources': len(s['src'])} for s in core.SCENE_SPECS[:NSCENES[tier]]],
+        'scenes': [{'shape': list(s['shape']), 'sources': len(s['src']),
+                    'odd_segments': [f'{o[0]}@({o[1]},{o[2]}){o[3]}' for o in s['odd']]}
+                   for s in core.SCENE_SPECS[:NSCENES[tier]]],
+        'odd_segment_patterns': {k: v.tolist() for k, v in core.ODD_PATTERNS.items()},
+        'auxiliary_arrays': {'error': 'non-constant (source term + noise) x sensitivity 1+0.9x/nx+0.5(y/ny)^2, pad 1.0',
+                             'mask': '3 bad pixels in sources + 1 background pixel + the 3x3 masked block, pad False',
+                             'background': 'ramp a*x+b*y+c (a != b), continued into the padding',
+                             'threshold map': 'multiple of the ramp, pad 1.0', 'convolved_data': '3x3 binomial, pad 0'},
         'dx': list(OFFX if tier == 'quick' else OFFX_EXTRA), 'dy': list(OFFY if tier == 'quick' else OFFY_EXTRA),
         'pads(px,py)': [list(p) for p in PADS[tier]],
         'transforms_per_configuration': len(transforms(tier, False)),
